@@ -179,6 +179,9 @@ func ruleC09(c *Ctx, r *Report) {
 	encKey, decKey := fnFullName(enc), fnFullName(dec)
 	var encSites []*ssa.Call
 	for _, f := range c.SortedFuncs() {
+		if !c.lineScope()[f] {
+			continue // a call outside everything that sees log content (a key self-test of the command) encrypts no log value
+		}
 		encSites = append(encSites, callsIn(f, func(k string, _ *ssa.Call) bool { return k == encKey })...)
 	}
 	encodingUsed := ""
@@ -514,9 +517,18 @@ func ruleC10(c *Ctx, r *Report) {
 	}
 	encKey := fnFullName(enc)
 	var sites []*ssa.Call
+	outside := 0
 	for _, f := range c.SortedFuncs() {
-		sites = append(sites, callsIn(f, func(k string, _ *ssa.Call) bool { return k == encKey })...)
+		cs := callsIn(f, func(k string, _ *ssa.Call) bool { return k == encKey })
+		if !c.lineScope()[f] {
+			// outside everything that sees log content (e.g. a key self-test in the command):
+			// no log value can be encrypted there
+			outside += len(cs)
+			continue
+		}
+		sites = append(sites, cs...)
 	}
+	r.Analysed["encrypt_calls_outside_the_line_scope"] = outside
 	// ---- R2 single choke point
 	r.Floor("C10-R2", 2, "one Encrypt site + string returns of the scalar step")
 	r.Check(len(sites) == 1, "C10-R2", "Encrypt:call-sites", c.Pos(enc.Pos()), "Encrypt is called from exactly one function", fmt.Sprintf("Encrypt is called from %d places: the placeholder logic can be bypassed", len(sites)))
@@ -707,7 +719,7 @@ func ruleC10(c *Ctx, r *Report) {
 					}
 					_, isNil := factNil(allFacts(call.Block()), extractOf(src, 1))
 					if !isNil {
-						_, isNil = factNil(allFacts(vs.At), extractOf(src, 1))
+						_, isNil = factNil(factsOnEdge(vs.At, vs.To), extractOf(src, 1))
 					}
 					if !isNil {
 						return false
@@ -1079,4 +1091,19 @@ func valueDependsOn(v, src ssa.Value, depth int) bool {
 		}
 	}
 	return false
+}
+
+// lineScope: the functions that can see log content - everything reachable from the file-level
+// wrappers, the stream function and the per-line entry points.
+func (c *Ctx) lineScope() map[*ssa.Function]bool {
+	if c.lineScopeCache != nil {
+		return c.lineScopeCache
+	}
+	an := c.anchors()
+	roots := []*ssa.Function{c.Fn("RedactMongoLog"), c.Fn("MarshalOrdered"), c.Fn("UnmarshalOrdered"), c.Fn("ProcessMongoLogFile"), c.Fn("ProcessMongoLogFileFromReader")}
+	if an != nil && an.StreamFn != nil {
+		roots = append(roots, an.StreamFn)
+	}
+	c.lineScopeCache = c.pkgReach(roots...)
+	return c.lineScopeCache
 }
